@@ -1,6 +1,7 @@
 (* C19 — Every held request is answered exactly once. Only statements here. *)
 From Coq Require Import List ZArith.
-Require Import MTX.Lib.Trace MTX.Model.PathSM MTX.Proofs.PathSM MTX.Proofs.PathSM_Thms MTX.Proofs.PathSM_Events MTX.Proofs.PathSM_Cycle.
+Require Import MTX.Lib.Trace MTX.Model.PathSM MTX.Proofs.PathSM MTX.Proofs.PathSM_Thms MTX.Proofs.PathSM_Events MTX.Proofs.PathSM_Cycle
+  MTX.Proofs.PathSM_Demand MTX.Proofs.PathSM_DemandRun.
 Import ListNotations.
 Local Open Scope Z_scope.
 
@@ -94,6 +95,47 @@ Theorem C19_cycle_static_stop : forall s g,
   In ESrcStop (snd (step s (TimerFire TSSClose))).
 Proof. exact (cycle_static_stop true). Qed.
 Print Assumptions C19_cycle_static_stop.
+
+(* ---- the demand is never stopped while a reader is attached ------------------------------------- *)
+(* after every history: a close-after timer is armed (automaton `Closing`) only while no reader is attached.
+   In particular a reader served out of the hold list by the ready event (doAddPublisher /
+   doSourceStaticSetReady -> consumeOnHoldRequests -> addReaderPost) takes the automaton back to `Ready` and
+   disarms the timer that ScheduleClose armed just before, exactly like a reader arriving later. *)
+Theorem C19_close_timer_only_without_readers : forall cf ops,
+  conf_ok cf = true ->
+  let s := final step (init_state cf) ops in
+  (s_pubCloseT s = true \/ s_ssCloseT s = true \/ s_pubState s = OdClosing \/ s_ssState s = OdClosing) ->
+  s_readers s = [].
+Proof. exact (c19_close_timer_no_readers true). Qed.
+Print Assumptions C19_close_timer_only_without_readers.
+
+(* every step, after every history, that takes the demand from running (runOnDemand command running =
+   onUnDemandHook set; on-demand static source running) to stopped - expiry of the close-after timer, expiry of
+   the start timer, the source leaving, Close - leaves no reader attached.  (That the "runOnDemand command
+   stopped" line / the source's Stop appear exactly in those steps is C20_open_iff_state / C20_logs_are_expansion_of_calls.) *)
+Theorem C19_demand_never_stopped_under_readers : forall cf ops o,
+  conf_ok cf = true ->
+  let s := final step (init_state cf) ops in
+  let s' := fst (step s o) in
+  demand_on s = true -> demand_on s' = false -> s_readers s' = [].
+Proof. exact (c19_stop_no_readers true). Qed.
+Print Assumptions C19_demand_never_stopped_under_readers.
+
+(* non-vacuity, the class of histories of a held reader: the demand arrives as an ADD-READER request, the
+   publisher serves it, the close-after timer is not armed while the reader stays (an expiry attempt does
+   nothing and the command keeps running); when the reader leaves the timer is armed, and its expiry stops
+   the command *)
+Example C19_example_held_reader :
+  let cf := mkConf false false true 0 true true true true true true false in
+  let a := final step (init_state cf) [AddReader 1 1; AddPublisher 2 1 true] in
+  let b := fst (step a (TimerFire TPubClose)) in
+  let c := fst (step b (RemoveReader 1)) in
+  let d := step c (TimerFire TPubClose) in
+  (s_readers a = [1] /\ s_pubState a = OdReady /\ s_pubCloseT a = false /\ s_hUnDemand a = true) /\
+  (b = a /\ snd (step a (TimerFire TPubClose)) = []) /\
+  (s_pubState c = OdClosing /\ s_pubCloseT c = true) /\
+  (s_hUnDemand (fst d) = false /\ In (ELogStop HDemand) (snd d)).
+Proof. vm_compute. repeat split; try reflexivity. tauto. Qed.
 
 (* the finding: before the repair (fix: commit 21d36a9 in the repository) the statement was false *)
 Theorem C19_held_has_deadline_refuted :
